@@ -13,6 +13,7 @@ the current inputs.  DESIGN.md section 3, C19.
 import copy
 import io
 import contextlib
+import posixpath
 
 import jinja2
 
@@ -21,6 +22,7 @@ import lena.output
 import lena.output.write as write_mod
 import lena.output.latex_to_pdf as latex_mod
 import lena.output.pdf_to_png as png_mod
+import lena.output.render_latex as render_mod
 import lena.structures
 
 from ..kernel import RunResult, summarize, exception_origin, exception_site
@@ -79,7 +81,8 @@ EXPECTED_PROBES = ["csv-deleted-and-data-changed", "tex-deleted-and-template-cha
                    "completion-order-differs-from-launch-order", "existing_unchanged", "write-overwrite",
                    "second-makefilename-not-overwriting", "second-makefilename-overwriting",
                    "prefix-and-suffix", "fixpoint-reached", "mtime-comparison-used",
-                   "changed-plot-next-to-unchanged-plot", "grouped-variant", "group-with-one-changed-member"]
+                   "changed-plot-next-to-unchanged-plot", "grouped-variant", "group-with-one-changed-member",
+                   "pipeline-object-reused", "default-jinja-environment"]
 
 _TIER = ["quick"]
 
@@ -96,7 +99,7 @@ OUTDIR = "out"
 TEMPLATE_PATH = "templates/plot.tex"
 KINDS = ["csv", "tex", "pdf", "png"]
 MKF = ["plain", "dir", "dirfmt", "prefix", "suffix", "presuf", "ctxprefix", "second-noow", "second-ow",
-       "ctxname", "ctxdir-empty", "ctxext-empty", "mkf-ext"]
+       "ctxname", "ctxdir-empty", "ctxext-empty", "mkf-ext", "suffix-scaled", "prefix-scaled"]
 
 
 def template_text(version):
@@ -138,6 +141,11 @@ def make_filenames(variant):
         return [MF("{{plot.name}}"), MF("other_{{plot.name}}", dirname="zzz")]
     if variant == "second-ow":
         return [MF(prefix="pre_"), MF("{{plot.name}}"), MF("ow_{{plot.name}}", overwrite=True)]
+    if variant == "suffix-scaled":
+        # the pattern of the group_plots documentation: a later name built from the existing one
+        return [MF(suffix="_log"), MF("{{plot.name}}"), MF("{{output.filename}}_scaled", overwrite=True)]
+    if variant == "prefix-scaled":
+        return [MF(prefix="pre_"), MF("{{plot.name}}"), MF("{{output.filename}}_scaled", overwrite=True)]
     raise ValueError(variant)
 
 
@@ -163,7 +171,39 @@ def expected_name(variant, name):
         return "zzz", name
     if variant == "second-ow":
         return "", "ow_" + name
+    if variant == "suffix-scaled":
+        return "", name + "_log_scaled"
+    if variant == "prefix-scaled":
+        return "", "pre_" + name + "_scaled"
     raise ValueError(variant)
+
+
+def make_loader(fs, searchpath):
+    """jinja2 loader on the simulated disk; like FileSystemLoader it tells jinja2 whether the
+    loaded source is still up to date (compares the modification time)"""
+    def load(name):
+        path = fs.norm(posixpath.join(searchpath, name))
+        try:
+            with fs.open(path) as f:
+                src = f.read()
+        except FileNotFoundError:
+            return None
+        mtime = fs.mtime.get(path)
+        return src, path, (lambda: fs.mtime.get(path) == mtime)
+    return jinja2.FunctionLoader(load)
+
+
+class JinjaFacade(object):
+    """the `jinja2` module as seen by lena.output.render_latex: FileSystemLoader reads SimFS"""
+
+    def __init__(self, fs):
+        self._fs = fs
+
+    def FileSystemLoader(self, searchpath, *args, **kwargs):
+        return make_loader(self._fs, searchpath)
+
+    def __getattr__(self, name):
+        return getattr(jinja2, name)
 
 
 class Tap(object):
@@ -194,6 +234,10 @@ def gen_scenario(tape):
     sc.clock = tape.weighted([(12, "normal"), (1, "tie"), (1, "skew")], "clock")
     sc.fail = tape.chance(1, 16, "converter-failure-mode")
     sc.step = 1 + tape.draw(3, "tick-step")
+    # the same pipeline object for every run of the history, or a new one per run
+    sc.reuse = tape.chance(1, 3, "reuse-pipeline")
+    # RenderLaTeX with its own default environment (template_dir) or with environment=
+    sc.env = tape.choice(["environment-param", "template_dir"], "render-env")
     nruns = 1 + tape.draw(4, "nruns")
     sc.runs = []
     for r in range(nruns):
@@ -235,17 +279,12 @@ class World(object):
         self.data_version = [0] * sc.nplots
         self.fs.poke(TEMPLATE_PATH, template_text(0))
         self.prev = None           # disk image at the end of the previous run
+        render_mod.jinja2 = JinjaFacade(self.fs)
+        self.rec = {}
+        self._seq = None
 
     def env(self):
-        fs = self.fs
-
-        def load(name):
-            try:
-                with fs.open("templates/" + name) as f:
-                    return f.read()
-            except FileNotFoundError:
-                return None
-        return jinja2.Environment(loader=jinja2.FunctionLoader(load), **lena.output.jinja_syntax_latex)
+        return jinja2.Environment(loader=make_loader(self.fs, "templates"), **lena.output.jinja_syntax_latex)
 
     def values(self):
         vals = []
@@ -267,6 +306,8 @@ class World(object):
         sc = self.sc
         latex_mod.subprocess = sub
         png_mod.subprocess = sub
+        if getattr(sc, "reuse", False) and self._seq is not None:
+            return self._seq
 
         def wopts(kind):
             # an option that is off is left to the element's default
@@ -279,11 +320,15 @@ class World(object):
         els += make_filenames(sc.mkf)
         els += [Tap("mkf", rec, self.log),
                 lena.output.Write(OUTDIR, verbose=False, **wopts(sc.w1)), Tap("w1", rec, self.log),
-                lena.output.RenderLaTeX("plot.tex", environment=self.env()), Tap("render", rec, self.log),
+                (lena.output.RenderLaTeX("plot.tex", environment=self.env())
+                 if getattr(sc, "env", "environment-param") == "environment-param"
+                 else lena.output.RenderLaTeX("plot.tex", template_dir="templates")),
+                Tap("render", rec, self.log),
                 lena.output.Write(OUTDIR, verbose=False, **wopts(sc.w2)), Tap("w2", rec, self.log),
                 lena.output.LaTeXToPDF(verbose=0, **lkw), Tap("pdf", rec, self.log),
                 lena.output.PDFToPNG(verbose=False, **pkw), Tap("png", rec, self.log)]
-        return lena.core.Sequence(*els)
+        self._seq = lena.core.Sequence(*els)
+        return self._seq
 
     def paths(self, p):
         d, f = expected_name(self.sc.mkf, "p%d" % p)
@@ -308,9 +353,14 @@ def run(tape):
     judged = [sc.clock == "normal" and not sc.fail]
     why = ["clock-" + sc.clock if sc.clock != "normal" else "failing-converter"]
     res.say("%d plots, MakeFilename %s, Write#1 %s, Write#2 %s, LaTeXToPDF(overwrite=%s), "
-            "PDFToPNG(overwrite=%s), clock %s%s; %d runs + 2 unchanged runs"
-            % (sc.nplots, sc.mkf, sc.w1, sc.w2, sc.ow_pdf, sc.ow_png, sc.clock,
+            "PDFToPNG(overwrite=%s), RenderLaTeX via %s, %s, clock %s%s; %d runs + 2 unchanged runs"
+            % (sc.nplots, sc.mkf, sc.w1, sc.w2, sc.ow_pdf, sc.ow_png, sc.env,
+               "one pipeline object for all runs" if sc.reuse else "a new pipeline per run", sc.clock,
                ", failing converters" if sc.fail else "", len(sc.runs)))
+    if sc.reuse:
+        res.probe("pipeline-object-reused")
+    if sc.env == "template_dir":
+        res.probe("default-jinja-environment")
     log.ev("cfg", "c19", sc.nplots, sc.mkf, sc.w1, sc.w2, sc.ow_pdf, sc.ow_png, sc.clock)
     if sc.w1 == "existing_unchanged" or sc.w2 == "existing_unchanged":
         res.probe("existing_unchanged")
@@ -419,8 +469,9 @@ def run(tape):
         def failer(tool, n, failplan=failplan):
             return tool == "pdflatex" and n < len(failplan) and bool(failplan[n])
 
-        sub = SimSubprocess(w.fs, log=log, plan=planner, fail_plan=failer if sc.fail else None)
-        rec = {}
+        sub = SimSubprocess(w.fs, log=log, plan=planner, fail_plan=failer if sc.fail else None, stamp=True)
+        rec = w.rec
+        rec.clear()
         seq = w.pipeline(rec, sub)
         interrupt = getattr(spec, "interrupt", None)
         try:
@@ -593,7 +644,8 @@ def check_run(w, sc, res, r, spec, rec, out, sub, start_image, oplog_start, dele
                 for nm in INPUT_RE.findall(tex):
                     d = now.get(fs.norm(nm.strip()))
                     datas.append(d if d is not None else b"<missing>")
-                fresh = content == pdf_of(tex, datas)
+                # the converter's output carries a serial number: compare what it was made from
+                fresh = content.startswith(pdf_of(tex, datas) + "@")
             else:
                 fresh = content == png_of(now[P[p]["pdf"]])
             if not fresh:
